@@ -165,4 +165,21 @@ META = {
         "level_text": "Runtime bracket monitor over every invocation rapid makes (hundreds of thousands of brackets incl. minimisation and retried Custom calls).",
         "technique": "event-trace monitor with reference LIFO stack model and context liveness sampling at the callback boundary",
     },
+    "C02": {
+        "level": "exploration",
+        "evaluations": ["checks_run"],
+        "required": ["cells_fired", "skip_only_runs", "ctx:body", "ctx:action", "ctx:invariant", "ctx:custom-inner", "ctx:custom-outer", "ctx:cleanup-body",
+                     "ctx:cleanup-action", "ctx:cleanup-custom", "ctx:goroutine", "pos:first", "pos:middle", "pos:last", "pos:after-skips", "pos:late-step"],
+        "show": ["checks_run", "cells_fired", "skip_only_runs"],
+        "rule": "enumeration of the matrix: 15 failure kinds (panic string/error/struct/nil, 3 runtime errors, Fatal, Fatalf, FailNow, Error, Errorf, Fail, "
+                "Error()/Errorf(\"\") with empty message) x 9 callback contexts x position of the falsifying case (first, middle, the checks-th, after 9 "
+                "skipped cases, late state-machine step; steered by a same-seed dry run) x variant (plain, then Skip, then a draw rejected as invalid data, "
+                "Skip inside a cleanup); oracle: an invocation recorded a failure intent => TB failed, never 'flaky'; skip-only programs never fail; "
+                "a cell whose falsifier never fired is inconclusive; non-trivial+distinct = distinct matrix cells in which the falsifier fired",
+        "assumptions": COMMON_ASSUME,
+        "level_text": "Matrix enumeration monitored at run time: every cell is executed through the real Check with the falsifying case steered to a "
+                      "chosen position; the intent log (written before each signal) against TB.Failed() decides.",
+        "technique": "enumerated failure-kind x context x position matrix with intent-before-signal logging; oracle intent => TB failed",
+        "max_inconclusive": 0.05,
+    },
 }
